@@ -11,7 +11,11 @@ import (
 	"sync"
 	"sync/atomic"
 
+	_ "github.com/mholt/caddy-l4/modules/l4echo"
+	_ "github.com/mholt/caddy-l4/modules/l4proxyprotocol"
 	_ "github.com/mholt/caddy-l4/modules/l4subroute"
+	_ "github.com/mholt/caddy-l4/modules/l4tee"
+	_ "github.com/mholt/caddy-l4/modules/l4throttle"
 
 	"verifharness/vh"
 )
